@@ -4,7 +4,7 @@ P=$1; CFG=${2:-default}
 D=$(mktemp -d /tmp/mut.XXXXXX)
 rsync -a --exclude .git /repo/ "$D/"
 ( cd "$D" && GIT_DIR=/nonexistent git apply --whitespace=nowarn "$P" ) || { echo "PATCH DOES NOT APPLY"; rm -rf $D; exit 2; }
-/verif/bin/czcheck analyse -repo $D -config $CFG > $D/.res.json 2>/dev/null
+${CZBIN:-/verif/bin/czcheck} analyse -repo $D -config $CFG > $D/.res.json 2>/dev/null
 python3 - $D/.res.json <<'PY'
 import json,sys
 r=json.load(open(sys.argv[1]))
